@@ -351,6 +351,24 @@ class MatchToIf(ast.NodeTransformer):
         return chain
 
 
+# ---------------------------------------------------------------------------------------------- pass: multi-item with -> nested
+class SplitWith(ast.NodeTransformer):
+    """`with A as x, B as y: body`  is by definition  `with A as x: with B as y: body`."""
+
+    def __init__(self):
+        self.changed = 0
+
+    def visit_With(self, n):
+        self.generic_visit(n)
+        if len(n.items) <= 1:
+            return n
+        self.changed += 1
+        inner = n.body
+        for it in reversed(n.items[1:]):
+            inner = [_loc(ast.With(items=[it], body=inner), n)]
+        return _loc(ast.With(items=[n.items[0]], body=inner), n)
+
+
 # ---------------------------------------------------------------------------------------------- pass: acquire/release -> with
 def _is_method_call(stmt, attr):
     return (isinstance(stmt, ast.Expr) and isinstance(stmt.value, ast.Call) and isinstance(stmt.value.func, ast.Attribute)
@@ -1726,6 +1744,9 @@ def canonicalise(trees, level, known_funcs=None):
         counter = itertools.count()
         mt = MatchToIf()
         mt.visit(tree)
+        sw = SplitWith()
+        sw.visit(tree)
+        mt.changed += sw.changed
         n_acq = acquire_to_with(tree)
         n_obj = objects_to_closures(tree, counter)
         n_inl = inline_closures(tree, counter)
